@@ -68,6 +68,42 @@ Proof.
   unfold dr0, dr1, dr2, dr3. list_eq; field.
 Qed.
 
+
+(* the same step with the rate quaternion multiplied from the left with the opposite sign, (0,-g) (x) q: AQUA's convention *)
+Definition drL0 (w x y z g0 g1 g2 h : R) : R := w + (h/2) * (g0*x + g1*y + g2*z).
+Definition drL1 (w x y z g0 g1 g2 h : R) : R := x + (h/2) * (- g0*w + g2*y - g1*z).
+Definition drL2 (w x y z g0 g1 g2 h : R) : R := y + (h/2) * (- g1*w - g2*x + g0*z).
+Definition drL3 (w x y z g0 g1 g2 h : R) : R := z + (h/2) * (- g2*w + g1*x - g0*y).
+Definition drLn (w x y z g0 g1 g2 h : R) : R :=
+  sqrt (sq4 (drL0 w x y z g0 g1 g2 h) (drL1 w x y z g0 g1 g2 h) (drL2 w x y z g0 g1 g2 h) (drL3 w x y z g0 g1 g2 h)).
+Definition drL (w x y z g0 g1 g2 h : R) : list R :=
+  [drL0 w x y z g0 g1 g2 h / drLn w x y z g0 g1 g2 h; drL1 w x y z g0 g1 g2 h / drLn w x y z g0 g1 g2 h;
+   drL2 w x y z g0 g1 g2 h / drLn w x y z g0 g1 g2 h; drL3 w x y z g0 g1 g2 h / drLn w x y z g0 g1 g2 h].
+Lemma drL_sq w x y z g0 g1 g2 h : sq4 w x y z = 1 ->
+  sq4 (drL0 w x y z g0 g1 g2 h) (drL1 w x y z g0 g1 g2 h) (drL2 w x y z g0 g1 g2 h) (drL3 w x y z g0 g1 g2 h)
+  = 1 + (h/2)*(h/2) * (g0*g0 + g1*g1 + g2*g2).
+Proof.
+  unfold sq4, drL0, drL1, drL2, drL3. intros H.
+  replace 1 with (w*w + x*x + y*y + z*z) at 1 by exact H.
+  replace ((h/2)*(h/2) * (g0*g0 + g1*g1 + g2*g2)) with ((h/2)*(h/2) * (g0*g0 + g1*g1 + g2*g2) * (w*w + x*x + y*y + z*z))
+    by (rewrite H; ring).
+  ring.
+Qed.
+Lemma drL_sq_ge1 w x y z g0 g1 g2 h : sq4 w x y z = 1 ->
+  1 <= sq4 (drL0 w x y z g0 g1 g2 h) (drL1 w x y z g0 g1 g2 h) (drL2 w x y z g0 g1 g2 h) (drL3 w x y z g0 g1 g2 h).
+Proof.
+  intros H. rewrite (drL_sq _ _ _ _ _ _ _ _ H).
+  pose proof (Rle_0_sqr (h/2)). pose proof (Rle_0_sqr g0). pose proof (Rle_0_sqr g1). pose proof (Rle_0_sqr g2).
+  unfold Rsqr in *. nra.
+Qed.
+Lemma drLn_ge1 w x y z g0 g1 g2 h : sq4 w x y z = 1 -> 1 <= drLn w x y z g0 g1 g2 h.
+Proof. intros H. unfold drLn. rewrite <- sqrt_1 at 1. apply sqrt_le_1_alt. apply drL_sq_ge1; exact H. Qed.
+Lemma drL_unit w x y z g0 g1 g2 h : sq4 w x y z = 1 -> unit4 (drL w x y z g0 g1 g2 h).
+Proof.
+  intros H. unfold drL, unit4, drLn. apply normalised_unit.
+  pose proof (drL_sq_ge1 w x y z g0 g1 g2 h H). lra.
+Qed.
+
 (* a zero norm means a zero vector *)
 Lemma sqrt3_0 a b c : 0 = sqrt (a*a + b*b + c*c) -> a = 0 /\ b = 0 /\ c = 0.
 Proof.
